@@ -280,7 +280,10 @@ class Ctx:
         self._declare(name, 'real', 0, None)
         r = SNum.var(name)
         self.atoms[k] = r
-        self._add_def((r * r) == s)
+        if not hasattr(self, 'sqrt_args'):
+            self.sqrt_args = {}
+        self._add_def(SNum({(((name, 2),), ()): 1 + 0j}) == s)
+        self.sqrt_args[name] = s
         return r
 
     def atom_reciprocal(self, s):
@@ -298,6 +301,9 @@ class Ctx:
         self._declare(name, 'real', None, None)
         r = SNum.var(name)
         self.atoms[k] = r
+        if not hasattr(self, 'inv_args'):
+            self.inv_args = {}
+        self.inv_args[name] = s
         self._add_def((r * s) == 1)
         return r
 
